@@ -95,12 +95,85 @@ def run_case(ctx, case, seed, observed, mode=None, tie=False, reuse=None, inst=N
                     dict(case=case.key, mode=mode, seed=seed, tie=tie, reuse=reuse, inst=inst, finding=f["kind"]))
 
 
+def crs_correspondence(ctx, n_cases):
+    """`skactiveml.utils.check_random_state` itself against `Ska.Rng.checkRandomState`: which seed the returned
+    generator was built from, whether it is the caller's / the global object, whether the caller's instance moved —
+    and, on the implementation alone, that the result is a function of (state, multiplier)."""
+    import copy
+
+    import numpy as np
+    from skactiveml.utils import check_random_state
+
+    rng = ctx.rng
+    lines, expect = [], []
+    glob = np.random.mtrand._rand
+    for t in range(n_cases):
+        kind = rng.choice(["inst", "inst", "int", "int", "none"])
+        mult = rng.choice([None, 1, 1, 2, 3, 8, 1000, 2**31 - 1, 2**31, 12345678901])
+        if kind == "int":
+            n = rng.randrange(2**31 - 1)
+            arg = n
+            draw = int(np.random.RandomState(n).randint(1, 2**31))
+        elif kind == "inst":
+            arg = np.random.RandomState(rng.randrange(2**31 - 1))
+            arg.random_sample(rng.randint(0, 5))
+            draw = int(copy.deepcopy(arg).randint(1, 2**31))
+        else:
+            arg, draw = None, 0
+        before = arg.get_state() if kind == "inst" else None
+        gbefore = glob.get_state()
+        case = dict(kind=kind, mult=mult, arg=(arg if kind == "int" else None))
+        try:
+            res = check_random_state(arg) if mult is None else check_random_state(arg, mult)
+            st0 = res.get_state()
+            res2 = check_random_state(arg) if mult is None else check_random_state(arg, mult)
+            same_stream = all(np.array_equal(a, b) if isinstance(a, np.ndarray) else a == b for a, b in zip(st0, res2.get_state()))
+            shared = (kind == "inst" and res is arg) or res is glob
+            if not shared:
+                res.random_sample(4)     # draws of the method
+            moved = kind == "inst" and not all(np.array_equal(a, b) if isinstance(a, np.ndarray) else a == b for a, b in zip(before, arg.get_state()))
+            if shared:
+                seed_txt = "-"
+            elif kind == "int" and mult is None:
+                seed_txt = "given" if np.array_equal(st0[1], np.random.RandomState(arg).get_state()[1]) else "other"
+            else:
+                want = (draw * mult) % 2**31
+                seed_txt = str(want) if np.array_equal(st0[1], np.random.RandomState(want).get_state()[1]) and st0[2] == 624 else "other"
+            impl = f"seed {seed_txt} shared {1 if shared else 0} advance {1 if moved else 0}"
+            gmoved = not np.array_equal(gbefore[1], glob.get_state()[1]) or gbefore[2] != glob.get_state()[2]
+        except Exception as e:  # noqa: BLE001
+            impl, same_stream, gmoved, shared, moved = f"err {type(e).__name__}", True, False, False, False
+        glob.set_state(gbefore)
+        lines.append(f"crs {kind} {'-' if mult is None else mult} {draw}")
+        expect.append((impl, case))
+        ctx.case(("crs", kind, mult, t), kind != "none", sample=dict(function="check_random_state", kind=kind, seed_multiplier=mult, result=impl))
+        ctx.count(f"crs_{kind}_{'mult' if mult is not None else 'nomult'}")
+        if mult is not None and kind != "none":
+            # C06 on the implementation: private, deterministic, global generator untouched
+            if shared or moved:
+                ctx.violate("C06/check_random_state/caller-instance-shared-or-advanced",
+                            f"check_random_state(<{kind}>, seed_multiplier={mult}) returned the caller's generator or advanced it: a repeated "
+                            f"pool query starts from another state", dict(crs=True, kind=kind, mult=mult))
+            if not same_stream:
+                ctx.violate("C06/check_random_state/not-a-function-of-its-arguments",
+                            f"check_random_state(<{kind}>, seed_multiplier={mult}) called twice returned generators in different states",
+                            dict(crs=True, kind=kind, mult=mult))
+            if gmoved:
+                ctx.violate("C06/check_random_state/global-generator-advanced",
+                            f"check_random_state(<{kind}>, seed_multiplier={mult}) advanced numpy's global generator", dict(crs=True, kind=kind, mult=mult))
+    outs = vlib.run_driver(lines)
+    for line, out, (impl, case) in zip(lines, outs, expect):
+        if out.split() != impl.split():
+            ctx.disagree("Ska.Rng.checkRandomState vs skactiveml.utils.check_random_state", dict(case, line=line), out, impl)
+
+
 def correspond(ctx):
     g = _gen(ctx)
     leads = {o["cls"] for o in g["obligations"] if not o["value"]}
     flipped = {o["cls"] for o in g["flips"]}
     observed = {}
     t0 = time.time()
+    crs_correspondence(ctx, 150 if not ctx.thorough else 1500)
     cases = list(zoo.cases())
     cases.sort(key=lambda c: (c.cls_name not in flipped, c.cls_name not in leads, c.family, c.cls_name, c.config))
     seeds = [ctx.seed] if not ctx.thorough else [ctx.seed + 101 * k for k in range(4)]
@@ -181,6 +254,22 @@ def search(ctx):
 
 def replay(payload):
     r = payload.get("replay", {})
+    if r.get("crs"):
+        import copy
+
+        import numpy as np
+        from skactiveml.utils import check_random_state
+
+        arg = np.random.RandomState(3) if r["kind"] == "inst" else 3
+        before = arg.get_state() if r["kind"] == "inst" else None
+        res = check_random_state(arg, r["mult"])
+        res.random_sample(4)
+        bad = res is arg or (before is not None and not np.array_equal(before[1], arg.get_state()[1])) or (before is not None and before[2] != arg.get_state()[2])
+        a = check_random_state(copy.deepcopy(arg) if before is None else np.random.RandomState(3), r["mult"]).get_state()
+        b = check_random_state(copy.deepcopy(arg) if before is None else np.random.RandomState(3), r["mult"]).get_state()
+        bad = bad or not np.array_equal(a[1], b[1])
+        print("REPRODUCED" if bad else "not reproduced")
+        return 1 if bad else 0
     case = next((c for c in zoo.cases() if c.key == r.get("case")), None)
     if case is None:
         print("unknown case", r.get("case"))
